@@ -436,7 +436,7 @@ func (w *World) Expect(sid, what string) {
 
 // logModelExpect records, next to the projection of the model state a replayed behaviour expects after a step, the same
 // projection of the real session (conformance of the code to EioSession.tla, state by state).
-func (w *World) logModelExpect(sid string, pollReq *Req, action any, exp map[string]any) {
+func (w *World) logModelExpect(sid string, pollReq, postReq *Req, action any, exp map[string]any) {
 	so := w.Sock(sid)
 	if so == nil {
 		return
@@ -479,8 +479,21 @@ func (w *World) logModelExpect(sid string, pollReq *Req, action any, exp map[str
 		}
 	}
 	w.rec.mu.Unlock()
+	// the data request in progress (feature "dreq" of the model): what was written to it, whether its handler has returned
+	dresp, dret := "", true
+	w.mu.Lock()
+	if r := postReq; r != nil {
+		dret = r.returned
+		switch {
+		case r.Status == 200 && string(r.Body) == "ok":
+			dresp = "ok"
+		case r.Status != 0:
+			dresp = fmt.Sprint(r.Status)
+		}
+	}
+	w.mu.Unlock()
 	act := map[string]any{"rs": so.ReadyState(), "tr": tr, "upgrading": so.Upgrading(), "upgraded": so.Upgraded(), "reg": inTable,
-		"count": int64(w.Srv.ClientsCount()), "wr": wr, "poll": poll, "nclose": nclose, "nrcvd": nrcvd}
+		"count": int64(w.Srv.ClientsCount()), "wr": wr, "poll": poll, "nclose": nclose, "nrcvd": nrcvd, "dresp": dresp, "dret": dret}
 	w.rec.Log("model.expect", "sid", sid, "a", action, "exp", exp, "act", act)
 }
 
